@@ -27,7 +27,7 @@ from harness.common import cbool, clist, copt
 PROPERTY = "C17"
 LEVEL = "proof"
 
-REQS = ["OV.Registry.OpsetMethod", "OV.Registry.OpsetEmit", "OV.Gen.OpsetMethods", "OV.Gen.OpsetSchemas"]
+REQS = ["OV.Registry.OpsetMethod", "OV.Registry.OpsetEmit", "OV.Registry.OpsetChain", "OV.Gen.OpsetMethods", "OV.Gen.OpsetSchemas"]
 _STATE = {}
 
 
@@ -52,7 +52,8 @@ def regenerate(ctx):
         ctx.tie_broken("translator", f"{f}:{line}", why)
     exempt = E.exempt_ops(classes, recs)
     _STATE.update(classes=classes, exposed=exposed, recs=recs, errors=errors, exempt=exempt)
-    ctx.gen("OpsetMethods", E.classes_file(classes, exempt))
+    from harness import c17_opgen
+    ctx.gen("OpsetMethods", E.classes_file(classes, exempt, c17_opgen.excluded_keys()))
     ctx.gen("OpsetSchemas", E.schemas_file(recs))
 
 
@@ -137,10 +138,14 @@ def coq_failures(ctx):
         "Eval vm_compute in (List.concat (map (fun x => [snd (fst x); snd x]) dep)).\n"
         'Eval vm_compute in (map (fun x => (fst x ++ "|" ++ String.concat "," (snd x))%string) '
         "(emitted_diff exm OpsetSchemas.schemas OpsetMethods.classes)).\n"
-        "Eval vm_compute in (map s_name (filter (fun s => negb (schema_wfb s)) OpsetSchemas.schemas))."
+        "Eval vm_compute in (map s_name (filter (fun s => negb (schema_wfb s)) OpsetSchemas.schemas)).\n"
+        "Definition emc := emit_classes exm OpsetMethods.excluded_opsets OpsetSchemas.schemas.\n"
+        "Eval vm_compute in (classes_diff OpsetMethods.classes emc).\n"
+        'Eval vm_compute in ((if reg_wfb exm OpsetMethods.excluded_opsets OpsetSchemas.schemas then [] else ["reg_wfb"]) ++ '
+        '(if classes_eqb OpsetMethods.classes emc then [] else ["classes_eqb"]))%list.'
     )
     ok, vals, raw = safe_eval(ctx, body, "failures")
-    if not ok or len(vals) != 5:
+    if not ok or len(vals) != 7:
         ctx.tie_broken("translator", "Gen/OpsetMethods.v", "model does not evaluate on the regenerated data: " + raw[-1500:])
         return None, None, None
     fails = [tuple(s.split("|")) for s in parse_str_list(vals[0])]
@@ -150,6 +155,7 @@ def coq_failures(ctx):
     dep = [(c, op, nums[2 * i], nums[2 * i + 1]) for i, (c, op) in enumerate(names)]
     _STATE["emitted_diff"] = [tuple(x.split("|")) for x in parse_str_list(vals[3])]
     _STATE["not_wf"] = parse_str_list(vals[4])
+    _STATE["classes_diff"] = parse_str_list(vals[5]) + parse_str_list(vals[6])
     return fails, dep, not fails
 
 
@@ -508,6 +514,53 @@ def run(ctx):
     ctx.cover(dynamic_lookup_cases=len(dyn_cases), dynamic_lookup_classes=len(cls_order))
 
     mark("dynamic-lookup")
+    # ---- (4b') the opsets the property names: every onnx.defs domain is either inside the registry theorem (a generated class per
+    #      version) or excluded by the generator's documented exclusion and then reachable through a plain values.Opset only
+    from harness import c17_opgen as G_
+    excluded = set(G_.excluded_keys())
+    dom_versions = collections.defaultdict(set)
+    for r in recs:
+        dom_versions[r["domain"]].add(r["since"])
+    have = {(c["domain"], c["version"]) for c in classes}
+    plain_ok, plain_n = True, 0
+    import onnxscript.onnx_opset as oo_
+    for dom in sorted(dom_versions):
+        for v in sorted(dom_versions[dom]):
+            if (dom, v) in have:
+                if oo_.all_opsets.get((dom, v)) is not opsets[[c["cls"] for c in classes if (c["domain"], c["version"]) == (dom, v)][0]]:
+                    plain_ok = False
+                    ctx.violation(f"C17:{domain_label(dom)}/{v}:generated-class-not-exposed", f"the generated class of ({dom!r}, {v}) is not what onnx_opset.all_opsets exposes",
+                                  {"domain": dom, "version": v})
+                continue
+            if (dom, v) not in excluded:
+                plain_ok = False
+                ctx.violation(f"C17:{domain_label(dom)}/{v}:opset-without-generated-class",
+                              f"onnx.defs has operators of ({dom!r}, {v}) but there is neither a generated class nor a documented exclusion",
+                              {"domain": dom, "version": v, "operators": sorted(r["name"] for r in recs if r["domain"] == dom and r["since"] == v)[:10]})
+                continue
+            # excluded: not exposed by onnxscript (no class, not in all_opsets); a plain Opset resolves dynamically -- same lookup as the model
+            if (dom, v) in oo_.all_opsets:
+                ctx.tie_broken("harness", "excluded-opset", f"({dom!r}, {v}) is excluded from generation but exposed in all_opsets")
+            po = osvalues.Opset(dom, v)
+            for name in sorted(names_by_dom[dom]) + ["NoSuchOp"]:
+                s = live_schema(dom, name, v)
+                want = None if s is None else int(s.since_version)
+                item = po[name]
+                try:
+                    ga = int(getattr(po, name).op_schema.since_version)
+                except AttributeError:
+                    ga = None
+                plain_n += 1
+                ctx.case(("plain-opset", dom, name, want is None))
+                if (None if item is None else int(item.op_schema.since_version)) != want or (name in po) != (s is not None) or ga != want:
+                    plain_ok = False
+                    ctx.violation("C17:Opset-dynamic-lookup:plain-opset-disagrees-with-onnx.defs",
+                                  f"values.Opset({dom!r}, {v})[{name!r}] / in / getattr disagree with onnx.defs (since {want})",
+                                  {"domain": dom, "version": v, "op": name, "onnx_defs_since": want})
+    ctx.obligation(f"every (domain, version) of onnx.defs has its generated class exposed in onnx_opset.all_opsets ({len(have)} classes: "
+                   f"ai.onnx 1..{max(dom_versions[''])}, ai.onnx.ml, ai.onnx.preview) or is the generator's documented exclusion "
+                   f"({sorted(excluded)}: no class, not exposed; plain values.Opset lookup = onnx.defs on {plain_n} names)", plain_ok)
+    ctx.cover(domains={domain_label(d): sorted(vs) for d, vs in dom_versions.items()}, excluded_opsets=sorted(map(list, excluded)))
     # ---- (4c) call_method vs recorded real calls of every generated method
     call_cases, call_meta = [], []
     kinds = collections.Counter()
@@ -624,12 +677,64 @@ def run(ctx):
     ctx.obligation(f"real execution: eager call with defaults omitted = bare node on {len(exec_pairs)} (operator, version, class) samples", exec_bad == 0)
     ctx.cover(executed_pairs=len(exec_pairs), executed_ops=len({p[1] for p in exec_pairs}), exec_stats=dict(sorted(stats.items())))
     mark("execution")
+    # ---- (5b) every generated method: inputs synthesised from the schema, eager (defaults left out) vs bare node on onnxruntime
+    generic_sweep(ctx, R, opsets)
+    mark("execution-all-methods")
     ctx.cover(stage_seconds={b[0]: round(b[1] - a[1], 1) for a, b in zip(marks, marks[1:])})
     if stats["ort-ran"] < max(10, len(exec_pairs) // 3):
         ctx.tie_broken("harness", "execution-oracle-degenerate", f"only {stats['ort-ran']} of {len(exec_pairs)} pairs ran on onnxruntime")
     ctx.cover(rule="exhaustive over the regenerated data: every generated method x every class that sees it x every onnx.defs schema "
                    "(proof by evaluation + direct oracle on the imported classes); recorded calls: 4-8 argument shapes per method incl. "
                    "calls Python rejects; execution: table of ~75 operators, every since_version, defining + one inheriting class")
+
+
+def generic_sweep(ctx, R, opsets):
+    """The sentence "calling an operator eagerly with defaults left out computes what a node without those attributes
+    computes", for every generated method for which an input can be synthesised from the schema (harness/c17_generic.py,
+    run in a worker process: some made-up inputs crash onnxruntime)."""
+    import collections
+
+    from harness import c17_generic as G
+    todo = G.method_list(opsets)
+    res = G.sweep(common.REPO, todo, ctx.cases_dir)
+    if len(res) != len(todo):
+        ctx.tie_broken("harness", "execution-all-methods", f"the worker returned {len(res)} results for {len(todo)} methods")
+    by = collections.Counter((r["source"] or "-", r["status"]) for r in res)
+    reasons = collections.defaultdict(list)
+    n_bad = 0
+    for r in res:
+        ran = r["status"] in ("equal", "roundoff", "diff")
+        if ran:
+            ctx.case(("exec-method", r["op"], r.get("since"), r["source"], bool(r["defaults"])))
+        if r["status"] == "diff":
+            n_bad += 1
+            ctx.violation(f"C17:{r['cls']}.{r['op']}:eager-differs-from-bare-node",
+                          f"{r['cls']}.{r['op']} called with the defaults left out differs from the bare {r['op']} node at opset "
+                          f"{r.get('since')} on onnxruntime (inputs synthesised from the schema: {r['source']})",
+                          {"class": r["cls"], "op": r["op"], "inputs": r.get("inputs"), "attrs": r.get("attrs"),
+                           "eager": r.get("eager"), "bare": r.get("bare")})
+        elif r["status"] == "eager-failed":
+            d = r.get("detail") or ""
+            reasons["eager evaluation needs the number of outputs from the calling context (Split)" if "number of expected outputs" in d
+                    else "the eager evaluator could not run the call although the bare node runs: " + d[:120]].append(f"{r['cls']}.{r['op']}")
+        elif not ran:
+            reasons[r["reason"] or "?"].append(f"{r['cls']}.{r['op']}")
+    withd = [r for r in res if r["defaults"]]
+    ran_all = [r for r in res if r["status"] in ("equal", "roundoff", "diff")]
+    ran_d = [r for r in ran_all if r["defaults"]]
+    ctx.obligation(f"real execution, all methods: eager call with defaults left out = bare node on onnxruntime for {len(ran_all)} of "
+                   f"{len(todo)} generated methods ({len(ran_d)} of the {len(withd)} methods that have an attribute default)", n_bad == 0)
+    ctx.cover(execution_all_methods=dict(
+        methods=len(todo), exercised=len(ran_all), exercised_by_hand_table=sum(1 for r in ran_all if r["source"] == "table"),
+        exercised_by_synthesised_input=sum(1 for r in ran_all if r["source"] == "generic"),
+        methods_with_attribute_defaults=len(withd), exercised_with_attribute_defaults=len(ran_d),
+        roundoff_only=by.get(("table", "roundoff"), 0) + by.get(("generic", "roundoff"), 0),
+        not_exercised={k: {"count": len(v), "operators": sorted({x.split(".", 1)[1] for x in v})[:40]} for k, v in sorted(reasons.items())}))
+    print(f"C17-execution: {len(ran_all)}/{len(todo)} generated methods exercised eagerly vs bare node on onnxruntime "
+          f"({len(ran_d)}/{len(withd)} of those with attribute defaults); not exercised: "
+          + "; ".join(f"{len(v)} {k}" for k, v in sorted(reasons.items(), key=lambda kv: -len(kv[1]))))
+    if len(ran_all) < 300:
+        ctx.tie_broken("harness", "execution-all-methods-degenerate", f"only {len(ran_all)} methods exercised")
 
 
 def opgen_stage(ctx, R, opsets, by_cls, stats):
@@ -701,12 +806,14 @@ def opgen_stage(ctx, R, opsets, by_cls, stats):
         ctx.tie_broken("harness", "opgen-degenerate", f"only {st['methods_compared']} methods compared")
     # the Gallina model of the generator vs the real generator's output (= the checked-in classes when there is no difference)
     if ed is not None:
+        cd = _STATE.get("classes_diff") or []
+        ed = list(ed) + [("class-skeleton", ",".join(cd))] if cd else ed
         model_ok = not ed and not nwf
         if not diffs and not model_ok:
             ctx.tie_broken("correspondence", "generator-model",
                            f"Registry/OpsetEmit.emit_methods differs from what opgen generates: classes {ed[:6]}; schemas failing schema_wfb: {nwf[:6]}")
-        ctx.obligation(f"correspondence: emit_methods (Gallina model of the generator) = methods of all {len(classes)} classes as opgen "
-                       f"generates them; all {len(recs)} onnx.defs schemas pass schema_wfb", model_ok,
+        ctx.obligation(f"correspondence: emit_classes (Gallina model of the generator: class names, base classes, (domain, version), "
+                       f"method lists) = all {len(classes)} classes as opgen generates them; onnx.defs ({len(recs)} schemas) passes reg_wfb", model_ok,
                        f"{ed[:6]} {nwf[:6]}")
     ctx.sample({"opgen": {"variant": variant, "generated_ops": info["ops"], "unsupported": info["unsupported"],
                           "records_equal": not diffs, "defs_ast_equal": st["method_defs_ast_equal"]}})
